@@ -24,3 +24,10 @@ Proof.
   intros hints Hd. apply C17_formula. intros c d Hin. split; [|exact (Hd c d Hin)].
   unfold hints, hints_of_text in Hin. destruct (hints_from_range _ _ _ c d Hin) as [Hc _]. exact (proj2 Hc).
 Qed.
+
+(** at the level of the tokens: what sudoku_gen prints (the hints as single variables, then the "= 1" lists, joined by "&", closed by
+    "true") parses to exactly sudoku_form r hints *)
+From Rsbdd Require Import Syntax.Token Syntax.Parser Gen.GenText.
+Theorem C17_tokens r hints : parse (chain_tokens (sudoku_items r hints) ++ TEof :: nil) = Ok (sudoku_form r hints) nil.
+Proof. exact (GenText.C17_tokens r hints). Qed.
+Print Assumptions C17_tokens.
